@@ -7,7 +7,7 @@ set -u
 V=$(cd "$(dirname "$0")/.." && pwd)
 REPO=${REPO:-/repo}
 export GOFLAGS=-mod=mod GOPROXY=off GOSUMDB=off GOTOOLCHAIN=local CGO_ENABLED=1
-mkdir -p "$V/build" "$V/build/ext" "$V/build/logs"
+mkdir -p "$V/build" "$V/build/ext" "$V/build/logs" "$V/coq/theories/Generated"
 exec 9>"$V/build/prepare.lock"
 flock 9
 
